@@ -121,7 +121,7 @@ class G:
             if y < 0.65:
                 return "%s.like(%s)" % (self.field(), self.string())
             if y < 0.75:
-                n = r.randint(1, 3)
+                n = r.choice([0, 1, 1, 2, 2, 3, 3])      # the empty list is legal: x IN ()
                 items = ", ".join(self.pynum() if r.random() < 0.7 else self.string() for _ in range(n))
                 return "%s.%s([%s])" % (self.num(max(d - 1, 0)), r.choice(["isin", "notin"]), items)
             if y < 0.85:
